@@ -161,6 +161,7 @@ fn main() {
             match args[2].as_str() {
                 "C01" => props::c01::worker(&args[2..]),
                 "C07" => props::c07::worker(&args[2..]),
+                "C13" => props::c13::worker(&args[2..]),
                 "C14" => props::c14::worker(&args[2..]),
                 other => {
                     eprintln!("unknown worker {}", other);
